@@ -83,14 +83,14 @@ class FakeLink:
     def attach(self, node: Any) -> None:
         self.nodes[node.env.node_id] = node
 
-    def purpose(self, node_id: int, sock: int) -> int:
-        """The purpose id a node's network stack assigns to a socket id (ghost peers: the socket id itself)."""
+    def purpose(self, node_id: int, sock: int, remote: Optional[int] = None) -> int:
+        """The purpose id a node's network stack assigns to a socket id towards `remote` (ghost peers: the socket id)."""
         n = self.nodes.get(node_id)
         st = getattr(n, "stack", None) if n is not None else None
-        return st.pfun(sock) if st is not None else sock
+        return st.pfun(sock, remote) if st is not None else sock
 
     def on_socket(self, node_id: int, sock: int, remote: int, remote_sock: int) -> None:
-        self.sock[(node_id, self.purpose(node_id, sock))] = (remote, self.purpose(remote, remote_sock))
+        self.sock[(node_id, self.purpose(node_id, sock, remote))] = (remote, self.purpose(remote, remote_sock, node_id))
 
     def new_phys(self, node_id: int) -> int:
         if self.phys_from_executor and node_id in self.nodes:
@@ -126,8 +126,8 @@ class FakeLink:
                number: int, request: Any = None, tag: Any = None) -> int:
         if request is None:
             # submitted by a harness on behalf of a ghost creator: the arguments are socket ids
-            purpose_c = self.purpose(creator, purpose_c)
-            purpose_r = self.purpose(receiver, purpose_r)
+            purpose_c = self.purpose(creator, purpose_c, receiver)
+            purpose_r = self.purpose(receiver, purpose_r, creator)
         cid = self.next_create_id.get(creator, 0)
         self.next_create_id[creator] = cid + 1
         key = (creator, receiver, purpose_c)
